@@ -78,7 +78,8 @@ SCENARIOS.update({
 })
 BOUND2 = ["2x1_text_plain", "2x1_text_deflate", "2x1_text_binary_deflate", "2x1_text_ping_deflate"]
 FIRST_USE = ["2x1_text_deflate", "2x1_text_deflate_nct"]
-IN_WRITE = ["2x2_plain", "close_vs_2_sends"]
+IN_WRITE = ["2x2_plain", "close_vs_2_sends", "3x1_deflate", "send_ping_close", "close_close_send"]
+IN_WRITE_POINTS = ("sendall.mid", "lock.acquire", "cond.wait", "cond.notify")
 EARLY = 24
 _BASE = {}
 
@@ -229,11 +230,17 @@ class C11(Prop):
                 for order in itertools.permutations(names):
                     log = baseline_log_for(self, name, order)
                     for step, who, where in log:
-                        if where not in ("sendall.mid", "lock.acquire"):
+                        if where not in IN_WRITE_POINTS:
                             continue
                         for t in names:
                             if t != who:
-                                yield {"scn": name, "order": list(order), "first": [step - 1, t], "sweep2": True}
+                                if len(names) >= 3:
+                                    # three actors: the second one queues up, hand over to the third (chain), then a
+                                    # third preemption at every later write / lock point
+                                    yield {"scn": name, "order": list(order), "first": [step - 1, t], "chain2": True,
+                                           "chain3": True}
+                                else:
+                                    yield {"scn": name, "order": list(order), "first": [step - 1, t], "sweep2": True}
         out = [Enumeration("all_orders_x_single_preemptions" + ("_and_pairs" if bound2 else ""), cases, exhaustive=True)]
         if self.in_write():
             out.append(Enumeration("preemption_inside_a_write_x_every_second_preemption", in_write_races, exhaustive=True))
@@ -303,17 +310,34 @@ class C11(Prop):
             names = thread_names(scn)
             t = first[1]
             ends = [step for step, who, _ in out.log if who == t]
+            # ... or has BLOCKED for the first time (queued up behind the preempted thread)
+            stops = [step for (step, who, _), (_, who2, _) in zip(out.log, out.log[1:])
+                     if step > first[0] and who == t and who2 != t]
             if ends:
-                end_t = ends[-1]
-                resumed = next((who for step, who, _ in out.log if step == end_t + 1), None)
-                for s2 in (end_t + 1,):       # the first step of whoever resumes after t has finished
+                for end_t in sorted(set([ends[-1]] + stops[:1])):
+                    resumed = next((who for step, who, _ in out.log if step == end_t + 1), None)
+                    s2 = end_t + 1       # the first step of whoever resumes after t has finished / blocked
                     for u in names:
                         if u == t or u == resumed:
                             continue
                         out2, bad = self.run_one(scn, {"order": case["order"], "preempt": [first, [s2, u]]}, labels, sub,
-                                                 "c2:%d:%s" % (s2, u))
+                                                 "c2:%d:%s" % (s2, u), keep_log=bool(case.get("chain3")))
                         if bad:
                             return failed(bad[0], bad[1], labels, True, sub[1:])
+                        if not case.get("chain3") or len(out2.taken) < 2:
+                            continue
+                        # two threads are now queued up behind the first: a THIRD preemption at every later point where
+                        # a thread is inside a write or at a lock / condition
+                        for s3, who3, where3 in out2.log:
+                            if s3 <= s2 or where3 not in IN_WRITE_POINTS:
+                                continue
+                            for v in names:
+                                if v == who3:
+                                    continue
+                                out3, bad = self.run_one(scn, {"order": case["order"], "preempt": [first, [s2, u], [s3 - 1, v]]},
+                                                         labels, sub, "c3:%d:%s" % (s3, v))
+                                if bad:
+                                    return failed(bad[0], bad[1], labels, True, sub[1:])
             return held(labels, took, sub[1:])
         if first and case.get("sweep2"):
             names = thread_names(scn)
